@@ -6,6 +6,9 @@ a. view_with_desired_portions_restored: every field of the result is a clone of 
 b. full literal (no ..base, all 7 fields)
 c. callers pass (view of the operation restored to, current base view) in that order and install the result with
    MutableRepo::set_view; `op revert` merges (reverted op, its parent) in base/other order first
+d. undo/redo stack encoding (the next undo/redo reads it back): the description of the new operation is
+   <PREFIX><hex id of the operation whose view was restored>, and the readers strip the same PREFIX constant and load
+   the operation with that id
 """
 from jjv.lib import (alts, bodies_with, bool_edges, name_matches, norm, show, strip, term_calls, term_leaves, walk)
 
@@ -34,6 +37,7 @@ def run(ctx):
                        "equality of visible commits after set_view (heads normalization, C10)"]
     rule_a(ctx)
     rule_c(ctx)
+    rule_d(ctx)
 
 
 def rule_a(ctx):
@@ -210,3 +214,68 @@ def rule_c(ctx):
             ctx.ob("C41.c/revert-merge-roles", root, ok,
                    "merge(repo at reverted op, repo at its parent) precedes the restore" if ok else
                    "op revert does not merge (reverted op as base, its parent as other) before restoring")
+
+
+def _consts(t):
+    return {w[1] for w in walk(t) if isinstance(w, tuple) and w[0] == "const" and isinstance(w[1], str)}
+
+
+def rule_d(ctx):
+    F = ctx.F
+    FIN = "re:^jj_cli::cli_util::WorkspaceCommandTransaction::<.*>::finish$"
+    for root, prefix_name in (("jj_cli::commands::undo::cmd_undo", "undo"), ("jj_cli::commands::redo::cmd_redo", "redo")):
+        bs = bodies_with(F, root, FN)
+        if not ctx.anchor("C41.d", f"{root} body", bs, 1):
+            continue
+        b = bs[0]
+        ctx.fn_seen(b.id)
+        sl = F.slicer(b.id)
+        vc = b.calls_to(FN)[0]
+        fin = [c for c in b.calls_to(FIN) if c.decl != "futures::Future::poll"]
+        if not ctx.anchor("C41.d", f"{root}: tx.finish", fin, 1):
+            continue
+        restored = named = None
+        restored_t = named_t = None
+        for x in term_calls(sl.call_arg(vc, 0)):
+            if x[1] == "jj_lib::operation::Operation::view":
+                restored, restored_t = norm(x[2][0]), x[2][0]
+        desc = sl.call_arg(fin[0], 2)
+        for x in term_calls(desc):
+            if x[1] == "jj_lib::operation::Operation::id":
+                named, named_t = norm(x[2][0]), x[2][0]
+        hexed = any(x[1].endswith("OperationId::hex") or x[1].endswith("::hex") for x in term_calls(desc))
+        same = restored is not None and named is not None and restored == named
+        ctx.ob("C41.d/description-names-the-restored-operation", root, same and hexed,
+               "tx.finish(PREFIX + hex(id(op))) with op = the operation whose view was restored" if same and hexed else
+               f"the {prefix_name}-operation's description names a different operation than the one restored "
+               f"(restored {show(restored_t)[:70] if restored else '?'} / named {show(named_t)[:70] if named else '?'}): the next "
+               f"{prefix_name} will continue from the wrong place", where=fin[0].where())
+        wprefix = {c for c in _consts(desc) if c.endswith("restore to operation ")}
+        # readers
+        rprefix = set()
+        loads_ok = True
+        n_readers = 0
+        for c in b.calls:
+            if c.cleanup or not name_matches(c.res or c.decl or "", "re:str>::strip_prefix$"):
+                continue
+            n_readers += 1
+            rprefix |= _consts(sl.call_arg(c, 1))
+        for c in b.calls_to("jj_lib::repo::RepoLoader::load_operation"):
+            if c.decl == "futures::Future::poll":
+                continue
+            t = sl.call_arg(c, 1)
+            names = {x[1] for x in term_calls(t)}
+            if not (any(n.endswith("::strip_prefix") for n in names) and any(n.endswith("OperationId::try_from_hex") for n in names)):
+                loads_ok = False
+        if root.endswith("cmd_undo"):
+            agree = bool(wprefix) and wprefix == rprefix
+            why = f"writer prefix {sorted(wprefix)}, reader prefixes {sorted(rprefix)}"
+        else:
+            # redo reads undo-operations (what to redo) and redo-operations (stack continuation)
+            agree = bool(wprefix) and wprefix <= rprefix
+            why = f"writer prefix {sorted(wprefix)}, reader prefixes {sorted(rprefix)}"
+        ctx.ob("C41.d/prefix-agreement", root, agree and n_readers >= 2, why if agree else
+               "the prefix written into the description is not the one the stack walker strips: " + why)
+        ctx.ob("C41.d/stack-pointer-decoded-from-description", root, loads_ok,
+               "load_operation(try_from_hex(strip_prefix(description)))" if loads_ok else
+               "an operation is loaded from something other than the id recorded in the description")
